@@ -77,10 +77,21 @@ func LitChar(s string) byte {
 	return s[1]
 }
 
+// LitRune returns the character denoted by a literal symbol (any Unicode character).
+func LitRune(s string) rune {
+	if s == `'\''` {
+		return '\''
+	}
+	for _, r := range s[1:] {
+		return r
+	}
+	return 0
+}
+
 // InternalName is the name yaccgo gives to a symbol.
 func InternalName(s string) string {
 	if IsLit(s) {
-		return "$operator" + string(LitChar(s))
+		return "$operator" + string(LitRune(s))
 	}
 	return s
 }
